@@ -186,6 +186,52 @@ def run(rep: Report) -> None:
                               f"`{ast.unparse(n)[:60]}` divides by something derived from the converted magnitude: "
                               "ZeroDivisionError for a zero quantity", fi.where(n))
                 rep.inventory("R07.5i", {"function": f, "division": ast.unparse(n)[:60]})
+    # first element of a filtered (possibly empty) sequence
+    for f in sorted(reach.reached):
+        fi = prog.functions[f]
+        if not planner_zone(prog, f):
+            continue
+        filtered: Dict[str, ast.AST] = {}
+        for n in ast.walk(fi.node):
+            if isinstance(n, ast.Assign) and len(n.targets) == 1 and isinstance(n.targets[0], ast.Name):
+                v = n.value
+                if isinstance(v, ast.ListComp) and any(g.ifs for g in v.generators):
+                    filtered[n.targets[0].id] = v
+                elif isinstance(v, ast.Call) and ast.unparse(v.func) in ("list", "tuple", "sorted") and v.args \
+                        and ((isinstance(v.args[0], ast.GeneratorExp) and any(g.ifs for g in v.args[0].generators))
+                             or (isinstance(v.args[0], ast.Call) and ast.unparse(v.args[0].func) == "filter")):
+                    filtered[n.targets[0].id] = v
+        cfg = None
+        for n in ast.walk(fi.node):
+            site = None
+            if isinstance(n, ast.Subscript) and isinstance(n.ctx, ast.Load) and isinstance(n.value, ast.Name) and n.value.id in filtered \
+                    and isinstance(n.slice, (ast.Constant, ast.UnaryOp)):
+                site, exc, nm = n, "IndexError", n.value.id
+            elif isinstance(n, ast.Call) and isinstance(n.func, ast.Name) and n.func.id == "next" and len(n.args) == 1 \
+                    and isinstance(n.args[0], ast.GeneratorExp) and any(g.ifs for g in n.args[0].generators):
+                site, exc, nm = n, "StopIteration", ""
+            elif isinstance(n, ast.Call) and isinstance(n.func, ast.Attribute) and n.func.attr == "pop" and isinstance(n.func.value, ast.Name) \
+                    and n.func.value.id in filtered:
+                site, exc, nm = n, "IndexError", n.func.value.id
+            if site is None:
+                continue
+            cfg = cfg or CFG(fi.node)
+            dom = cfg.dominators()
+            cn = cfg.node_of(site)
+            guarded = any(exc in names or "LookupError" in names or "Exception" in names for names in handlers_around(fi, site))
+            if nm and not guarded:
+                for t in cfg.stmt_nodes():
+                    if t.kind != "test" or not isinstance(t.ast, (ast.If, ast.While)) or cn is None or t.nid not in dom.get(cn, set()):
+                        continue
+                    tt = t.ast.test
+                    inside = any(site is x for b in t.ast.body for x in ast.walk(b))
+                    neg = isinstance(tt, ast.UnaryOp) and isinstance(tt.op, ast.Not) and ast.unparse(tt.operand) in (nm, f"len({nm})")
+                    pos = ast.unparse(tt) in (nm, f"len({nm})", f"len({nm}) > 0", f"len({nm}) >= 1", f"{nm} != []")
+                    if (pos and inside) or (neg and not inside and t.ast.body and isinstance(t.ast.body[-1], (ast.Continue, ast.Return, ast.Raise, ast.Break))):
+                        guarded = True
+            rep.check("R07.5", f"{f}:{ast.unparse(site)[:40]}", guarded,
+                      f"`{ast.unparse(site)[:50]}` takes an element of a filtered sequence that can be empty, with no emptiness test before it: "
+                      f"{exc} escapes from converting/comparing instead of ConversionNotFound", fi.where(site))
     # mypy diagnostics in the planner zone
     zone_files = {"conversions.py"}
     errs = [e for e in getattr(prog, "mypy_errors", []) if any(f"/{z}:" in e or e.startswith(f"src/measured/{z}:") for z in zone_files)]
